@@ -13,8 +13,9 @@ static int cfgv_parsecb_int(cfg_t *cfg, cfg_opt_t *opt, const char *value, void 
 { g_pcb_calls++; g_pcb_cfg = cfg; g_pcb_opt = opt; g_pcb_text = value; if (g_pcb_ret == 0) *(long *)result = g_pcb_long; return g_pcb_ret; }
 static int cfgv_parsecb_ptr(cfg_t *cfg, cfg_opt_t *opt, const char *value, void *result)
 { g_pcb_calls++; g_pcb_cfg = cfg; g_pcb_opt = opt; g_pcb_text = value; if (g_pcb_ret == 0) *(void **)result = g_pcb_ptr; return g_pcb_ret; }
+static _Bool g_pcb_nowrite;     /* the callback accepts but hands nothing back (leaves the result variable alone) */
 static int cfgv_parsecb_str(cfg_t *cfg, cfg_opt_t *opt, const char *value, void *result)
-{ g_pcb_calls++; g_pcb_cfg = cfg; g_pcb_opt = opt; g_pcb_text = value; if (g_pcb_ret == 0) *(const char **)result = g_pcb_str; return g_pcb_ret; }
+{ g_pcb_calls++; g_pcb_cfg = cfg; g_pcb_opt = opt; g_pcb_text = value; if (g_pcb_ret == 0 && !g_pcb_nowrite) *(const char **)result = g_pcb_str; return g_pcb_ret; }
 
 static void mk_cfg(cfg_t *cfg)
 {
@@ -196,6 +197,7 @@ static void b_setopt_str(unsigned n)
 	if (n && !APPENDS(n)) olds = o.values[0]->string;
 	snap(&o, &s);
 	g_pcb_calls = 0; g_pcb_ret = nondet_int(); g_pcb_str = nondet_bool() ? cbstr : NULL;
+	g_pcb_nowrite = nondet_bool(); if (g_pcb_nowrite) g_pcb_str = NULL;      /* empty-handed either way: a NULL handed back, or nothing written */
 	r = cfg_setopt(&cfg, &o, nulltext ? NULL : text);
 	CHECK("C14", g_pcb_calls <= (hascb ? 1 : 0) && (r == NULL || g_pcb_calls == (hascb ? 1 : 0)), "string option: the parsing callback is invoked exactly once per stored value when registered, never otherwise");
 	{
